@@ -33,7 +33,8 @@ LEVEL_TEXT = ("Generated importable modules (functions, async functions, classes
 LEVEL_NOTE = ("Trusted: the generator's inventory as tie-breaker; CPython's import of the generated module. Excluded because "
               "Python semantics, not xdoctest, make the two views differ: aliases (g = f), decorators without wraps, setters "
               "under a different name, definitions in branches that do not run, names deleted after definition, docstrings "
-              "assigned programmatically, duplicate names. Line numbers are not compared (dynamic analysis reports 1 by "
+              "assigned programmatically, duplicate names other than a documented definition shadowed by a later undocumented one "
+              "(generated: the later definition wins for both analyses). Line numbers are not compared (dynamic analysis reports 1 by "
               "design).")
 RULE = ("importable modules of 2-7 top-level items x 3 styles. Non-trivial: >= 1 decorated callable, >= 1 class with >= 3 "
         "method kinds and imported names with doctests. Distinct = distinct module source.")
